@@ -21,7 +21,7 @@ pub fn prop() -> Prop {
     .random("affixed", check, |t| if t == Tier::Quick { 300_000 } else { 5_000_000 }, |t| if t == Tier::Quick { 120 } else { 200 })
     .text(check_text_both)
     .assumptions(&[
-        "inputs on which the standalone entry points panic are C01's findings; they are counted under class 'panic' and not judged here",
+        "a panic of a standalone entry point is C01's subject (reported there); here such inputs are counted under class 'panic' and not judged",
         "the converse direction (every valid input is accepted) is measured (class accepted-valid must be > 0) but not asserted",
     ])
 }
